@@ -108,9 +108,13 @@ pub enum Query {
     EvictThenRun,
     SnapshotAnalyze,
     RootType,
+    /// per-node facts: annotation / type definition of every definition and annotation of every variable occurrence,
+    /// keyed by source location
+    Facts,
 }
 
-pub const QUERIES: [Query; 8] = [Query::Graph, Query::Analyze, Query::Reports, Query::Coverage, Query::Run, Query::EvictThenRun, Query::SnapshotAnalyze, Query::RootType];
+pub const QUERIES: [Query; 9] =
+    [Query::Graph, Query::Analyze, Query::Reports, Query::Coverage, Query::Run, Query::EvictThenRun, Query::SnapshotAnalyze, Query::RootType, Query::Facts];
 
 fn describe(op: &Op) -> String {
     match op {
@@ -222,8 +226,72 @@ pub fn raw_answer(session: &CompilerSession, root_path: &Path, other_path: &Path
             },
             | Err(e) => format!("error: {e}"),
         },
+        | Query::Facts => match session.analyze(&root_path) {
+            | Ok(analysis) => facts(session, root_path, &analysis),
+            | Err(e) => format!("error: {e}"),
+        },
     })();
     mask(&result)
+}
+
+/// Per-node facts of one analysis as the language server asks for them (`annotation_of_def`, `type_definition_of_def`,
+/// `annotation_of_term`), rendered with the repository's own type formatter and keyed by source location, so that the
+/// listing does not depend on the arena identities of the session that produced it.
+fn facts(session: &CompilerSession, root_path: &Path, analysis: &zydeco_session::source::ProgramAnalysis) -> String {
+    use zydeco_statics::fmt::{Formatter, Pretty};
+    use zydeco_statics::syntax::{AnnId, TermAnnId};
+    use zydeco_surface::scoped::syntax::Term;
+    let statics = match session.materialize_arena(analysis) {
+        | Ok(statics) => statics,
+        | Err(e) => return format!("facts: materialize error: {e}"),
+    };
+    let scoped = analysis.scoped();
+    let formatter = Formatter::new(scoped, &statics);
+    let place = |span: &zydeco_utils::span::Span| {
+        let (a, b) = span.get_cursor1();
+        format!("{}@{}..{}", span.get_path().map(|p| p.display().to_string()).unwrap_or_default(), a, b)
+    };
+    let show_ann = |ann: AnnId| {
+        let mut s = String::new();
+        let _ = ann.pretty(&formatter).render_fmt(100, &mut s);
+        s
+    };
+    let mut lines: Vec<String> = Vec::new();
+    for (def, name) in scoped.defs.iter() {
+        let Some(entity) = scoped.origins.source(&(*def).into()) else { continue };
+        let at = place(&analysis.spans()[&entity]);
+        let ann = match session.annotation_of_def(root_path, *def) {
+            | Ok(Some(ann)) => show_ann(ann),
+            | Ok(None) => "<none>".into(),
+            | Err(e) => format!("error: {e}"),
+        };
+        let tdef = match session.type_definition_of_def(root_path, *def) {
+            | Ok(Some(ty)) => {
+                let mut s = String::new();
+                let _ = ty.pretty(&formatter).render_fmt(100, &mut s);
+                s
+            }
+            | Ok(None) => "<none>".into(),
+            | Err(e) => format!("error: {e}"),
+        };
+        lines.push(format!("def {at} {} : {ann} := {tdef}", name.0));
+    }
+    for (term, body) in scoped.terms.iter() {
+        let Term::Var(_) = body else { continue };
+        let Some(entity) = scoped.origins.source(&term.into()) else { continue };
+        let at = place(&analysis.spans()[&entity]);
+        let ann = match session.annotation_of_term(root_path, term) {
+            | Ok(Some(TermAnnId::Value(_, ty))) | Ok(Some(TermAnnId::Compu(_, ty))) => format!("term : {}", show_ann(AnnId::Type(ty))),
+            | Ok(Some(TermAnnId::Type(_, kd))) => format!("type : {}", show_ann(AnnId::Kind(kd))),
+            | Ok(Some(TermAnnId::Kind(_))) => "kind".into(),
+            | Ok(Some(TermAnnId::Hole(_))) => "hole".into(),
+            | Ok(None) => "<none>".into(),
+            | Err(e) => format!("error: {e}"),
+        };
+        lines.push(format!("use {at} {ann}"));
+    }
+    lines.sort();
+    format!("{} facts\n{}", lines.len(), lines.join("\n"))
 }
 
 struct World {
@@ -298,9 +366,10 @@ fn execute(initial: &[(usize, usize)], ops: &[Op], stats: &mut Stats) -> (Vec<St
             let fresh = answer(&fresh_session, &world.dir, *q, *root);
             stats.evaluations += 1;
             stats.cover("queries", &format!("{:?}", q));
-            let class: String = fresh.chars().take_while(|c| *c != ':' && *c != ' ' && *c != '\n').collect();
-            stats.cover("answer_classes", &format!("{:?}/{}", q, class.chars().take(24).collect::<String>()));
             let strip = |s: &str| s.replace(&world.dir.display().to_string(), "<dir>");
+            let class: String = strip(&fresh).chars().take_while(|c| *c != ':' && *c != ' ' && *c != '\n').collect();
+            let class = if *q == Query::Graph && class.starts_with("<dir>") { "loaded".to_string() } else { class };
+            stats.cover("answer_classes", &format!("{:?}/{}", q, class.chars().take(24).collect::<String>()));
             answers.push(strip(&fresh));
             if incremental != fresh {
                 return (answers, Some((k, strip(&incremental), strip(&fresh))));
